@@ -56,6 +56,15 @@ Theorem C03_name_precedence :
 Proof. exact object_name_precedence. Qed.
 Print Assumptions C03_name_precedence.
 
+(* each execution of a template generates its rows one after the other with child_index
+   running i, i+1, ..., count-1 (from i = 0 in [TRows]), every row by the row task *)
+Theorem C03_count_rows_in_order :
+  forall fuel e t i cnt last s s' r,
+    run fuel e (TLoop t i cnt last) s = Ok (s', r) ->
+    exists last', r = RRow last' /\ loop_rows e t i cnt s s' last last'.
+Proof. exact loop_generates_count_rows. Qed.
+Print Assumptions C03_count_rows_in_order.
+
 (* a template whose count is <= 0 emits nothing and changes nothing *)
 Theorem C03_zero_count :
   forall fuel e t i cnt last s, cnt <= i -> run (S fuel) e (TLoop t i cnt last) s = Ok (s, RRow last).
